@@ -190,7 +190,10 @@ def run(name, root, defs, cfg, workers=1, timeout=3600, simulate=None, depth=Non
     d = _prepare(name, root, defs, cfg)
     out = os.path.join(d, "tlc.out")
     meta = os.path.join(d, "meta")
-    cmd = ["java", f"-Xss{xss}", f"-Xmx{heap}", "-XX:+UseSerialGC", "-XX:CICompilerCount=2", "-cp", f"{JAR}:{DEPS}", "tlc2.TLC",
+    jtmp = os.path.join(d, "jtmp")      # TLC unpacks its standard modules into java.io.tmpdir: keep that inside the run directory
+    os.makedirs(jtmp, exist_ok=True)
+    cmd = ["java", f"-Xss{xss}", f"-Xmx{heap}", "-XX:+UseSerialGC", "-XX:CICompilerCount=2", f"-Djava.io.tmpdir={jtmp}",
+           "-cp", f"{JAR}:{DEPS}", "tlc2.TLC",
            "-workers", str(workers), "-metadir", meta, "-noGenerateSpecTE", "-config", "MC.cfg"]
     if simulate:
         cmd += ["-simulate", simulate]
@@ -223,6 +226,7 @@ def run(name, root, defs, cfg, workers=1, timeout=3600, simulate=None, depth=Non
     if rc == 0 and res.error is None and res.violated is None:
         res.ok = True
     shutil.rmtree(meta, ignore_errors=True)
+    shutil.rmtree(jtmp, ignore_errors=True)
     return res
 
 
